@@ -288,10 +288,36 @@ package larking
 //@   loop 1 invariant ValidRun(l.input, old(l.pos), l.pos, isValid)
 //@   loop 1 decreases len(l.input) - l.pos
 
+// The token grammar of templates as a finite automaton over token kinds
+// (nested variables are not part of the grammar: "a variable template must not
+// contain other variables"). gfa(l, "st", k) is the ghost run of the automaton
+// over the tokens emitted so far: state k is the state before token k; emit
+// advances it. States: 0 error, 1 start, 2 segment expected, 3 after a segment,
+// 4 after "{", 5 after an identifier, 6 after ".", 7 segment expected inside a
+// variable, 8 after a segment inside a variable, 9 after ":", 10 after the verb
+// literal, 11 after EOF.
+//@ spec IsSegTok(t) = t == tokenLiteral || t == tokenStar || t == tokenStarStar
+//@ spec TDelta(s, t) = s == 1 ? (t == tokenSlash ? 2 : 0)
+//@      : s == 2 ? (IsSegTok(t) ? 3 : t == tokenVariableStart ? 4 : 0)
+//@      : s == 3 ? (t == tokenSlash ? 2 : t == tokenVerb ? 9 : t == tokenEOF ? 11 : 0)
+//@      : s == 4 ? (t == tokenIdent ? 5 : 0)
+//@      : s == 5 ? (t == tokenDot ? 6 : t == tokenEqual ? 7 : t == tokenVariableEnd ? 3 : 0)
+//@      : s == 6 ? (t == tokenIdent ? 5 : 0)
+//@      : s == 7 ? (IsSegTok(t) ? 8 : 0)
+//@      : s == 8 ? (t == tokenSlash ? 7 : t == tokenVariableEnd ? 3 : 0)
+//@      : s == 9 ? (t == tokenLiteral ? 10 : 0)
+//@      : s == 10 ? (t == tokenEOF ? 11 : 0) : 0
+//@ spec St(l, k) = gfa(l, "st", k)
+// TOk: the run starts in the start state, follows the automaton and never errs.
+//@ spec TOk(l) = St(l, 0) == 1 && (forall k :: {St(l, k + 1)} 0 <= k && k < l.len ==> St(l, k + 1) == TDelta(St(l, k), l.toks[k].typ) && St(l, k + 1) != 0)
+
 //@ func (*lexer).emit serves C01 C02 C16 C09
 //@   returns (err)
 //@   requires LexInv(l)
-//@   modifies F$lexer.len, F$lexer.start, E$token
+//@   ghost at "l.len++" set gfa(l, "st", l.len + 1) = TDelta(gfa(l, "st", l.len), typ)
+//@   ensures [run-step C16] err == nil ==> St(l, l.len) == TDelta(old(St(l, l.len)), typ)
+//@   ensures [run-frame C16] forall k :: {St(l, k)} k != old(l.len) + 1 ==> St(l, k) == old(St(l, k))
+//@   modifies F$lexer.len, F$lexer.start, E$token, G$gfa.st
 //@   ensures [inv] LexInv(l)
 //@   ensures [appended] err == nil ==> l.len == old(l.len) + 1 && l.start == l.pos && l.toks[old(l.len)].typ == typ
 //@        && same(l.toks[old(l.len)].val, l.input[old(l.start):l.pos])
@@ -302,7 +328,7 @@ package larking
 //@ func (*lexer).errUnexpected serves C01 C02 C16 C09
 //@   returns (err)
 //@   requires LexInv(l)
-//@   modifies F$lexer.len, F$lexer.start, E$token
+//@   modifies F$lexer.len, F$lexer.start, E$token, G$gfa.st
 //@   ensures [inv] LexInv(l) && err != nil
 //@   ensures [elem-frame] frame_elems(l.toks)
 //@   ensures [frame] forall k :: 0 <= k && k < old(l.len) ==> l.toks[k].typ == old(l.toks[k].typ) && same(l.toks[k].val, old(l.toks[k].val))
@@ -310,7 +336,7 @@ package larking
 //@ func (*lexer).errShort serves C01 C02 C16 C09
 //@   returns (err)
 //@   requires LexInv(l)
-//@   modifies F$lexer.len, F$lexer.start, E$token
+//@   modifies F$lexer.len, F$lexer.start, E$token, G$gfa.st
 //@   ensures [inv] LexInv(l) && err != nil
 //@   ensures [elem-frame] frame_elems(l.toks)
 //@   ensures [frame] forall k :: 0 <= k && k < old(l.len) ==> l.toks[k].typ == old(l.toks[k].typ) && same(l.toks[k].val, old(l.toks[k].val))
@@ -339,7 +365,7 @@ package larking
 //@ func lexPathSegment serves C01 C02 C09
 //@   returns (err)
 //@   requires LexInv(l) && l.start == l.pos
-//@   modifies F$lexer.pos, F$lexer.width, F$lexer.len, F$lexer.start, E$token
+//@   modifies F$lexer.pos, F$lexer.width, F$lexer.len, F$lexer.start, E$token, G$gfa.st
 //@   ensures [inv] LexInv(l)
 //@   ensures [frame] forall k :: 0 <= k && k < old(l.len) ==> l.toks[k].typ == old(l.toks[k].typ) && same(l.toks[k].val, old(l.toks[k].val))
 //@   ensures [elem-frame] frame_elems(l.toks)
@@ -350,7 +376,7 @@ package larking
 //@ func lexPath serves C01 C02 C09
 //@   returns (err)
 //@   requires LexInv(l) && l.start == 0 && l.pos == 0 && l.len == 0
-//@   modifies F$lexer.pos, F$lexer.width, F$lexer.len, F$lexer.start, E$token
+//@   modifies F$lexer.pos, F$lexer.width, F$lexer.len, F$lexer.start, E$token, G$gfa.st
 //@   ensures [inv] LexInv(l)
 //@   ensures [shape] err == nil ==> PathToks(l)
 //@   ensures [elem-frame] frame_elems(l.toks)
@@ -453,7 +479,7 @@ package larking
 //@ func (*path).match serves C01 C02 C09
 //@   returns (m, ps, err)
 //@   requires p != nil && TrieWf()
-//@   modifies F$lexer, E$token, E$param
+//@   modifies F$lexer, E$token, E$param, G$gfa.st
 //@   ensures [found] err == nil ==> m != nil && len(m.vars) == gf(p, "depth") + len(ps)
 
 // ---------------------------------------------------------------------------
@@ -465,14 +491,18 @@ package larking
 //@ func lexIdent serves C16 C09
 //@   returns (err)
 //@   requires LexInv(l)
-//@   modifies F$lexer.pos, F$lexer.width, F$lexer.len, F$lexer.start, E$token
+//@   requires TOk(l) && (St(l, l.len) == 4 || St(l, l.len) == 6)
+//@   ensures [grammar C16] err == nil ==> TOk(l) && St(l, l.len) == 5
+//@   modifies F$lexer.pos, F$lexer.width, F$lexer.len, F$lexer.start, E$token, G$gfa.st
 //@   ensures [inv] LexInv(l) && l.pos >= old(l.pos)
 //@   ensures [token] err == nil ==> l.len == old(l.len) + 1 && l.start == l.pos && l.pos > old(l.pos)
 
 //@ func lexLiteral serves C16 C09
 //@   returns (err)
 //@   requires LexInv(l)
-//@   modifies F$lexer.pos, F$lexer.width, F$lexer.len, F$lexer.start, E$token
+//@   requires TOk(l) && (St(l, l.len) == 2 || St(l, l.len) == 7 || St(l, l.len) == 9)
+//@   ensures [grammar C16] err == nil ==> TOk(l) && St(l, l.len) == TDelta(old(St(l, l.len)), tokenLiteral)
+//@   modifies F$lexer.pos, F$lexer.width, F$lexer.len, F$lexer.start, E$token, G$gfa.st
 //@   ensures [inv] LexInv(l) && l.pos >= old(l.pos)
 //@   ensures [token] err == nil ==> l.len == old(l.len) + 1 && l.start == l.pos && l.pos > old(l.pos)
 //@   ensures [accepts] old(l.pos) < len(l.input) && l.input[old(l.pos)] < 128 && IsLiteralR(l.input[old(l.pos)]) && old(l.len) < 64 ==> err == nil
@@ -480,7 +510,10 @@ package larking
 //@ func lexFieldPath serves C16 C09
 //@   returns (err)
 //@   requires LexInv(l)
-//@   modifies F$lexer.pos, F$lexer.width, F$lexer.len, F$lexer.start, E$token
+//@   requires TOk(l) && St(l, l.len) == 4
+//@   ensures [grammar C16] err == nil ==> TOk(l) && St(l, l.len) == 5
+//@   loop 1 invariant TOk(l) && St(l, l.len) == 5
+//@   modifies F$lexer.pos, F$lexer.width, F$lexer.len, F$lexer.start, E$token, G$gfa.st
 //@   ensures [inv] LexInv(l) && l.pos >= old(l.pos)
 //@   ensures [progress] err == nil ==> l.pos > old(l.pos)
 //@   loop 1 invariant LexInv(l) && l.pos > old(l.pos)
@@ -489,21 +522,28 @@ package larking
 //@ func lexVerb serves C16 C09
 //@   returns (err)
 //@   requires LexInv(l)
-//@   modifies F$lexer.pos, F$lexer.width, F$lexer.len, F$lexer.start, E$token
+//@   requires TOk(l) && St(l, l.len) == 9
+//@   ensures [grammar C16] err == nil ==> TOk(l) && St(l, l.len) == 11
+//@   modifies F$lexer.pos, F$lexer.width, F$lexer.len, F$lexer.start, E$token, G$gfa.st
 //@   ensures [inv] LexInv(l)
 
 //@ func lexVariable serves C16 C09
 //@   returns (err)
 //@   requires LexInv(l)
-//@   modifies F$lexer.pos, F$lexer.width, F$lexer.len, F$lexer.start, E$token
+//@   requires TOk(l) && St(l, l.len) == 2
+//@   ensures [grammar C16] err == nil ==> TOk(l) && St(l, l.len) == 3
+//@   modifies F$lexer.pos, F$lexer.width, F$lexer.len, F$lexer.start, E$token, G$gfa.st
 //@   decreases 3 * LexRest(l)
 //@   ensures [inv] LexInv(l) && l.pos >= old(l.pos)
 //@   ensures [progress] err == nil ==> l.pos > old(l.pos) && l.start == l.pos
 
 //@ func lexSegment serves C16 C09
 //@   returns (err)
+//@   witness verifWitnessNestedVariable
 //@   requires LexInv(l) && l.start == l.pos
-//@   modifies F$lexer.pos, F$lexer.width, F$lexer.len, F$lexer.start, E$token
+//@   requires TOk(l) && (St(l, l.len) == 2 || St(l, l.len) == 7)
+//@   ensures [grammar C16] err == nil ==> TOk(l) && St(l, l.len) == old(St(l, l.len)) + 1
+//@   modifies F$lexer.pos, F$lexer.width, F$lexer.len, F$lexer.start, E$token, G$gfa.st
 //@   decreases 3 * LexRest(l) + 1
 //@   ensures [inv] LexInv(l) && l.pos >= old(l.pos)
 //@   ensures [progress] err == nil ==> l.pos > old(l.pos) && l.start == l.pos
@@ -514,7 +554,11 @@ package larking
 //@ func lexSegments serves C16 C09
 //@   returns (err)
 //@   requires LexInv(l) && l.start == l.pos
-//@   modifies F$lexer.pos, F$lexer.width, F$lexer.len, F$lexer.start, E$token
+//@   requires TOk(l) && (St(l, l.len) == 2 || St(l, l.len) == 7)
+//@   ghost s0 = St(l, l.len)
+//@   ensures [grammar C16] err == nil ==> TOk(l) && St(l, l.len) == s0 + 1
+//@   loop 1 invariant TOk(l) && St(l, l.len) == s0
+//@   modifies F$lexer.pos, F$lexer.width, F$lexer.len, F$lexer.start, E$token, G$gfa.st
 //@   decreases 3 * LexRest(l) + 2
 //@   ensures [inv] LexInv(l) && l.pos >= old(l.pos)
 //@   ensures [progress] err == nil ==> l.pos > old(l.pos)
@@ -524,7 +568,9 @@ package larking
 //@ func lexTemplate serves C16 C09
 //@   returns (err)
 //@   requires LexInv(l) && l.start == 0 && l.pos == 0 && l.len == 0
-//@   modifies F$lexer.pos, F$lexer.width, F$lexer.len, F$lexer.start, E$token
+//@   ghost at "if r := l.next(); r != '/' {" set gfa(l, "st", 0) = 1
+//@   ensures [grammar C16] err == nil ==> TOk(l) && St(l, l.len) == 11
+//@   modifies F$lexer.pos, F$lexer.width, F$lexer.len, F$lexer.start, E$token, G$gfa.st
 //@   deadcode "return err #1"
 //@   ensures [inv] LexInv(l)
 
@@ -814,7 +860,7 @@ package larking
 //@ func (*state).match serves C01 C09
 //@   returns (m, ps, err)
 //@   requires TrieWf() && (s != nil ==> s.path != nil)
-//@   modifies F$lexer, E$token, E$param
+//@   modifies F$lexer, E$token, E$param, G$gfa.st
 //@   ensures [nil-state-routes-nothing C11] s == nil ==> err != nil
 //@   ensures [found] err == nil ==> m != nil
 
